@@ -15,6 +15,7 @@ import itertools
 import os
 import random
 import signal
+import socket
 import threading
 import time
 
@@ -170,12 +171,22 @@ def exec_env_check(bind):
     k = sk.Kernel(script=[("sig", "USR2")], settle=0)
     k.fs.dirs.add("/run")
     k.env["PRE_EXISTING"] = "1"
+    cs = cfgs(bind)
+    saved_env = [c.env_orig for c in cs]
+    for c in cs:
+        # the environment the old master was started with (Config snapshots it): configuration given through
+        # GUNICORN_CMD_ARGS must reach the new master like everything else
+        c.env_orig = dict(c.env_orig, PRE_EXISTING="1", GUNICORN_CMD_ARGS="--workers 1")
 
     def on_q(kern):
         # from the first quiescence on, the next fork is the re-exec fork: take the child branch
         kern.fork_returns_zero_once = True
     k.on_quiescent = on_q
-    o = sk.run_arbiter(cfgs(bind), k)
+    try:
+        o = sk.run_arbiter(cs, k)
+    finally:
+        for c, e in zip(cs, saved_env):
+            c.env_orig = e
     bad = []
     if not k.exec_calls:
         return [("exec:no-exec", "the child branch of reexec() did not reach execvpe (%s %s)" % (o.end, o.exc))]
@@ -185,6 +196,9 @@ def exec_env_check(bind):
     fds = ",".join(str(l.fileno()) for l in k.listeners)
     if env.get("GUNICORN_FD") != fds:
         bad.append(("exec:GUNICORN_FD", "GUNICORN_FD=%r, listener fds %r" % (env.get("GUNICORN_FD"), fds)))
+    for var, val in (("PRE_EXISTING", "1"), ("GUNICORN_CMD_ARGS", "--workers 1")):
+        if env.get(var) != val:
+            bad.append(("exec:environment-not-passed-on", "the new master is executed with %s=%r; the old master was started with %r" % (var, env.get(var), val)))
     if any(l.closed for l in k.listeners):
         bad.append(("exec:listener-closed-before-exec", "a listener was closed in the child before exec"))
     return bad
@@ -418,7 +432,28 @@ def real_histories(maxlen):
 
 def real_cell(cell):
     bind, hist, wc = cell
-    s = rp.Server(worker_class=wc, workers=1, bind=bind, graceful_timeout=2, timeout=30)
+    multi = bind == "multi"      # three listeners: tcp, a second tcp port, a unix socket - every one must be handed over
+    if multi:
+        s = rp.Server(worker_class=wc, workers=1, bind="tcp", graceful_timeout=2, timeout=30, extra_binds=1, extra_unix=True)
+    else:
+        s = rp.Server(worker_class=wc, workers=1, bind=bind, graceful_timeout=2, timeout=30)
+
+    def unreachable_listeners():
+        bad = []
+        if not multi:
+            return bad
+        try:
+            s.connect(timeout=2.0, extra=0).close()
+        except OSError as e:
+            bad.append("127.0.0.1:%d (%s)" % (s.extra_ports[0], type(e).__name__))
+        try:
+            c2 = socket.socket(socket.AF_UNIX, socket.SOCK_STREAM)
+            c2.settimeout(2.0)
+            c2.connect(s.extra_unix_path)
+            c2.close()
+        except OSError as e:
+            bad.append("unix:%s (%s)" % (os.path.basename(s.extra_unix_path), type(e).__name__))
+        return bad
     try:
         if not s.start():
             return ("infrastructure", "server did not start")
@@ -507,6 +542,9 @@ def real_cell(cell):
                 # whoever lives must be reachable
                 if not s.can_connect():
                     v = ("unreachable", "after step %s (history %r) nobody accepts connections although a master is alive" % (step, hist))
+                elif unreachable_listeners():
+                    v = ("listener-lost", "after step %s (history %r) a master is alive but the listener(s) %r are served by nobody" % (
+                        step, hist, unreachable_listeners()))
             if not (old_alive or new_alive):
                 client.paused = True
         client.stop_flag = True
@@ -549,6 +587,11 @@ def real_part(thorough, seed):
         for bind in ("tcp", "unix"):
             if thorough or (i + (bind == "unix")) % 2 == 0 or len(h) <= 2:
                 cells.append((bind, h, "sync" if (i % 4) else "gthread"))
+    for h in (["usr2-old", "term-old"], ["usr2-old", "quit-old"], ["usr2-old", "term-new"], ["usr2-old", "term-old", "usr2-new"],
+              ["usr2-old", "hup-old", "term-old"]):
+        cells.append(("multi", h, "sync"))
+        if thorough:
+            cells.append(("multi", h, "gevent"))
     order = list(cells)
     random.Random(seed).shuffle(order)
     results = par.pmap(real_cell, order, jobs=14)
